@@ -105,6 +105,22 @@ def classify2(prog, f, sink, what, d, n):
     """-> (class, capacity text, detail).  classes: C const fits, A alloc-then-fill, G guarded/clamped/contract,
     F forwarded to the caller, X unbounded"""
     from .linear import Lin
+    dd = strip_casts(d)
+    if dd.is_inst and dd.op in ("phi", "select") and (getattr(dd, "ty", "") or "").endswith("*") and not getattr(classify2, "_depth", 0):
+        # `cond ? bufA : bufB`: one of several destinations, chosen at run time -- the copy has to fit each of them
+        alts_ = [o for o in (dd.ops if dd.op == "phi" else dd.ops[1:]) if not (o.is_const and o.is_null)]
+        if len(alts_) >= 2 and all(strip_casts(resolve_ptr(prog, o, f.unit)[0]) is not dd for o in alts_):
+            classify2._depth = 1
+            try:
+                worst = None
+                for o in alts_:
+                    r = classify2(prog, f, sink, what, o, n)
+                    if r[0] == "X":
+                        return r
+                    worst = worst or r
+                return (worst[0], worst[1], worst[2] + " [for each of %d destinations]" % len(alts_))
+            finally:
+                classify2._depth = 0
     L = Lin(prog, f)
     L.at = sink.bb
     if what in ("strcpy", "strcat"):
